@@ -1,6 +1,7 @@
 #!/bin/sh
-# sensitivity (all mutants + benign variants), then a reduced thorough sweep, then multi-seed quick runs
+# model test, seeded regression, sensitivity (all mutants + benign variants), reduced thorough sweep, multi-seed quick runs
 ./check selftest model
+./check selftest seeded
 ./check selftest sensitivity
 ./tools/thorough_sweep.sh "${1:-8}" "${2:-11}"
 SEEDS="1 2 3" ./tools/multi_seed_quick.sh
